@@ -170,10 +170,10 @@ Proof.
         -- apply (inv_put st i p (mloc MMark (OFlush shmok false :: r) (S (nxt p)) false false) (i, DData (nxt p)) VQ H Hp);
              put_tac H Hp Ecl.
     + destruct (closed p) eqn:Ecl; [pc_only H Hp (mfin p)|].
-      destruct qfull.
-      * apply (inv_put st i p (mloc MWait (OClose true :: r) (nxt p) (infb p) true) (i, DEnd) VS H Hp);
+      destruct (infb p || qfull).
+      * apply (inv_put st i p (mloc MWait (OClose qfull :: r) (nxt p) (infb p) true) (i, DEnd) VS H Hp);
           put_tac H Hp Ecl.
-      * apply (inv_put st i p (mloc MMark (OClose false :: r) (nxt p) (infb p) true) (i, DEnd) VQ H Hp);
+      * apply (inv_put st i p (mloc MMark (OClose qfull :: r) (nxt p) (infb p) true) (i, DEnd) VQ H Hp);
           put_tac H Hp Ecl.
   - destruct (mflag st); [pc_only H Hp (mfin p) | pc_only H Hp (mmkp MWr p)].
   - destruct (mwriting st); [pc_only H Hp (mmkp MSlow p) | pc_only H Hp (mmkp MEv p)].
@@ -385,15 +385,17 @@ Definition rP i n := repeat (WProd i) n.
 Definition rC n := repeat WCons n.
 Definition rS n := repeat WSend n.
 
-(* (a) close overtakes fallback data: one stream; m0 through the queue (polling event written, not yet
-   handled), shared memory exhausted: m1 through the socket (send loop), close: the close element goes
-   through the queue (markWorking fails, the flag is still up).  The consumer handles the polling event
-   first: m0, END — and only then the fallback event: m1. *)
+(* (a) — REPAIRED by "close through the socket when the stream is in fallback state" — the former
+   witness: one stream; m0 through the queue (polling event written, not yet handled), shared memory
+   exhausted: m1 through the socket, close.  Before the repair the close element went through the queue
+   (markWorking fails, the flag is still up) and the consumer delivered m0, END, m1.  Now the close event
+   follows m1 on the socket; the same history is delivered in order (regression example). *)
 Definition wit_a_progs := [[OFlush true false; OFlush false false; OClose false]].
-Definition wit_a_sched := rP 0 6 ++ rP 0 1 ++ rS 4 ++ rP 0 1 ++ rP 0 2 ++ rC 30.
-Lemma wit_a :
+Definition wit_a_sched := rP 0 6 ++ rP 0 1 ++ rS 4 ++ rP 0 1 ++ rP 0 1 ++ rC 30 ++ rS 5 ++ rP 0 1 ++ rC 5.
+Lemma reg_a :
   let st := mrun wit_a_sched (minit wit_a_progs) in
-  seen 0 st = [DData 0; DEnd; DData 1] /\ sent 0 st = [DData 0; DData 1; DEnd] /\ ordered 0 st = false.
+  seen 0 st = [DData 0; DData 1; DEnd] /\ sent 0 st = [DData 0; DData 1; DEnd] /\ ordered 0 st = true /\
+  map snd (flog st) = [VQ; VS; VS].
 Proof. vm_compute. repeat split. Qed.
 
 (* (b) a fallback event overtakes an unpublished wake-up: writer 0 wins markWorking and is pre-empted
@@ -406,11 +408,21 @@ Lemma wit_b :
   seen 1 st = [DData 1; DData 0] /\ sent 1 st = [DData 0; DData 1] /\ ordered 1 st = false.
 Proof. vm_compute. repeat split. Qed.
 
+(* (b') inside the same window the end mark of a stream that switched transport is overtaken too: the
+   close event (socket) and the fallback data pass b0, which still waits in the queue for writer 0's
+   polling event.  This is the only way left (see order_without_window in MuxOrderProofs.v). *)
+Definition wit_e_progs := [[OFlush true false]; [OFlush true false; OFlush false false; OClose false]].
+Definition wit_e_sched := rP 0 2 ++ rP 1 2 ++ rP 1 1 ++ rS 4 ++ rP 1 1 ++ rP 1 1 ++ rS 5 ++ rP 1 1 ++ rP 0 4 ++ rC 30.
+Lemma wit_e :
+  let st := mrun wit_e_sched (minit wit_e_progs) in
+  seen 1 st = [DData 1; DEnd; DData 0] /\ sent 1 st = [DData 0; DData 1; DEnd] /\ ordered 1 st = false.
+Proof. vm_compute. repeat split. Qed.
+
 Theorem order_refuted : ~ order_full.
 Proof.
   intros Hf.
-  assert (E : ordered 0 (mrun wit_a_sched (minit wit_a_progs)) = false) by (vm_compute; reflexivity).
-  rewrite (Hf wit_a_progs wit_a_sched 0) in E. discriminate E.
+  assert (E : ordered 1 (mrun wit_b_sched (minit wit_b_progs)) = false) by (vm_compute; reflexivity).
+  rewrite (Hf wit_b_progs wit_b_sched 1) in E. discriminate E.
 Qed.
 
 (* non-vacuity of the partial theorem: stream 0 uses only the queue, stream 1 only the socket (falls
